@@ -1057,13 +1057,24 @@ class Executor:
             conds.append((bi, z3.Or([v == z3.BitVecVal(c, w) for c in cvs]) if len(cvs) > 1 else v == z3.BitVecVal(cvs[0], w)))
         non_default = [c for bi, cvs in by_target.items() if bi != dflt for c in cvs]
         conds.append((dflt, z3.And([v != z3.BitVecVal(c, w) for c in non_default]) if non_default else z3.BoolVal(True)))
+        # enumerate the feasible targets with (#feasible + 1) queries: ask for a model outside the targets found so far
         feas = []
-        for bi, c in conds:
-            if self.eval_bool(st, c): feas.append((bi, c, st.model))
+        remaining = list(conds)
+        model = self.model_of(st)
+        while remaining:
+            hit = None
+            for k, (bi, c) in enumerate(remaining):
+                v_ = model.eval(c, True)
+                if z3.is_true(v_) or z3.is_true(z3.simplify(v_)): hit = k; break
+            if hit is None: break     # cannot happen: the targets partition the value space
+            bi, c = remaining.pop(hit)
+            feas.append((bi, c, model))
+            if not remaining: break
+            r, m = self.check(st, z3.Not(z3.Or([c2 for _, c2, _ in feas])))
+            if r == 'sat': model = m
             else:
-                r, m = self.check(st, c)
-                if r == 'sat': feas.append((bi, c, m))
-                elif r == 'unknown': self.note_unsupported('solver-unknown-on-switch')
+                if r == 'unknown': self.note_unsupported('solver-unknown-on-switch')
+                break
         if not feas: raise PathEnd('infeasible')
         key = id(ins)
         if len(feas) > 1:
@@ -1101,6 +1112,8 @@ class Executor:
                 raise MemError('bad-call', 'indirect call to non-function address 0x%x' % a)
             name = self.overrides.get(name, name)
         args = [g(regs) for g in gargs]
+        al = self.m.aliases.get(name)
+        if al is not None and al.kind == 'global': name = al.v
         fn = self.m.functions.get(name)
         b = self.builtins.get(name)
         if b is not None:
